@@ -269,7 +269,8 @@ def h_warp_call(dtype, nd, nodata):
     if not conc:
         real_reproject = warp.rasterio.warp.reproject
 
-        def fake_reproject(src_, dst_, **kw):
+        def fake_reproject(source, destination=None, **kw):  # rasterio.warp.reproject's own parameter names
+            src_, dst_ = source, destination
             calls.append((src_, dst_, kw))
             fill = kw.get("dst_nodata")
             # GDAL initialises the destination with the nodata value; nothing of the source lands here
